@@ -49,7 +49,8 @@ def get_bright_perc(mask, image, image_bg, bg_off=None):
     for ii in range(length):
         # cast to integer before subtraction
         imgi = np.array(image[ii], dtype=int) - image_bg[ii]
-        mski = mask[ii]
+        # boolean indexing also for masks stored as 0/1 or 0/255 integers
+        mski = np.asarray(mask[ii], dtype=bool)
         # Assign results
         p10[ii], p90[ii] = np.percentile(imgi[mski], q=[10, 90])
 
